@@ -211,12 +211,39 @@ def inline_combinators(text, fn_id, expected, log):
     return text
 
 
+def inline_closures(text, fn_id, names, log):
+    """Mechanical beta-reduction of a local zero-argument closure `let [mut] NAME = || { BODY };` that is called exactly once
+    (`NAME()`): the definition is removed and the call becomes `{ BODY }`.  (Verus has no closures that capture `&mut` state.)
+    Any other shape is a LostAnchor."""
+    for name in names:
+        mask = mask_source(text)
+        m = re.search(r"let\s+(?:mut\s+)?%s\s*=\s*\|\|\s*\{" % re.escape(name), mask)
+        if not m or len(re.findall(r"\b%s\b" % re.escape(name), mask)) != 2:
+            raise LostAnchor("%s: closure `%s` is not `let %s = || {..};` used exactly once" % (fn_id, name, name))
+        o = m.end() - 1
+        c = match_close(mask, o)
+        semi = re.match(r"\s*;", mask[c + 1:])
+        if not semi:
+            raise LostAnchor("%s: closure `%s`: no `;` after its body" % (fn_id, name))
+        body = text[o:c + 1]
+        text = text[:m.start()] + text[c + 1 + semi.end():]
+        mask = mask_source(text)
+        u = re.search(r"\b%s\s*\(\s*\)" % re.escape(name), mask)
+        if not u:
+            raise LostAnchor("%s: closure `%s` is not called as `%s()`" % (fn_id, name, name))
+        text = text[:u.start()] + body + text[u.end():]
+        log.append("%s: local closure `%s` inlined at its single call" % (fn_id, name))
+    return text
+
+
 def build_fn(item, spec, canary, log):
     """Return (text, clause_marks, canary_marks); marks are (line offset within text, info)."""
     fn_id = spec.get("id") or (("%s::" % spec["container_name"]) if spec.get("container_name") else "") + spec["name"]
     text = item.text
     for pat, rep in GLOBAL_DROPS:
         text = re.sub(pat, rep, text)
+    if spec.get("inline_closures"):
+        text = inline_closures(text, fn_id, spec["inline_closures"], log)
     text = _apply_rewrites(text, spec.get("rewrites"), fn_id, log)
     if spec.get("inline_combinators") is not None:
         text = inline_combinators(text, fn_id, spec["inline_combinators"], log)
